@@ -3,7 +3,7 @@ from __future__ import annotations
 
 import numpy as np
 
-from vlib.core import Clause, Outcome
+from vlib.core import rerun_replay, Clause, Outcome
 from props import common, tendency
 
 LEVEL = 'other'
@@ -392,6 +392,44 @@ def run_trajectory_twin(ctx):
   return out
 
 
+def run_moist_means(ctx):
+  """Moist class: the humidity corrections are discrete divergences / curls only through quadrature, so the global-mean (0,0) tendencies of
+  vorticity and divergence vanish to rounding, not structurally.  Sampled *rough* states (humidity, temperature, surface pressure with energy up
+  to the highest retained wavenumber), explicit tendency and a short filtered trajectory."""
+  jax = common.jx()
+  import jax.numpy as jnp
+  from dinosaur import time_integration as ti
+  out = Outcome()
+  rng = np.random.RandomState(ctx.seed + 77)
+  for impl in ('real', 'fast'):
+    g = common.make_grid(4, 5, 12, 9, 'gauss', impl, **({'base_shape_multiple': 4} if impl == 'fast' else {}))
+    sig = common.sigma_levels('uneven', 3, ctx.seed)
+    eq = common.make_primitive(g, sig, 'linear', cls='moist')
+    sp_ = tendency.primitive_space(eq, impl, tracers=('specific_humidity',))
+    worst_t, worst_s, big = 0.0, 0.0, 0.0
+    for k in range(3 if ctx.tier == 'quick' else 10):
+      st = tendency.primitive_state(sp_, jnp.asarray(rng.randn(sp_.n) * sp_.scale * 0.3), with_time=True)
+      tr = dict(st.tracers)
+      tr['specific_humidity'] = tr['specific_humidity'].at[:, 0, 0].add(0.01 * np.sqrt(4 * np.pi))
+      st = type(st)(st.vorticity, st.divergence, st.temperature_variation, st.log_surface_pressure, st.sim_time, tr)
+      t = eq.explicit_terms(st)
+      big = max(big, float(jnp.abs(t.divergence).max()), float(jnp.abs(t.vorticity).max()))
+      worst_t = max(worst_t, float(jnp.abs(t.divergence[:, 0, 0]).max()), float(jnp.abs(t.vorticity[:, 0, 0]).max()))
+      dt = 0.01
+      step = jax.jit(ti.step_with_filters(ti.imex_rk_sil3(eq, dt), [ti.exponential_step_filter(g, dt, order=2, cutoff=0.4)]))
+      s = st
+      for _ in range(3):
+        s = step(s)
+      worst_s = max(worst_s, float(jnp.abs(s.divergence[:, 0, 0] - st.divergence[:, 0, 0]).max()), float(jnp.abs(s.vorticity[:, 0, 0] - st.vorticity[:, 0, 0]).max()))
+    nm = f'{impl}: moist explicit tendency: global means of vorticity / divergence tendencies vanish to rounding on rough states'
+    (out.ok(nm, 'numeric', sample={'obligation': nm, 'max_mean_tendency': worst_t, 'largest_tendency': big}) if worst_t <= 1e-12 * max(1.0, big) else
+     out.fail(nm, witness={'impl': impl, 'max_mean_tendency': worst_t, 'largest_tendency': big}, detail=f'max |(0,0) tendency| = {worst_t:.3e} (largest tendency {big:.3e})', key=nm))
+    nm = f'{impl}: moist imex_rk_sil3 + exponential filter, 3 steps from rough states: global means of vorticity / divergence unchanged to rounding'
+    (out.ok(nm, 'numeric', sample={'obligation': nm, 'max_drift': worst_s}) if worst_s <= 1e-12 * max(1.0, big) * 0.03 + 1e-15 else
+     out.fail(nm, witness={'impl': impl, 'max_drift': worst_s}, detail=f'max drift of the (0,0) coefficients = {worst_s:.3e}', key=nm))
+  return out
+
+
 def replay_invariants(w):
   """Native re-run: a few steps of the real equations (primitive with time / tracer; shallow water over an un-truncated mountain)
   from an admissible state; reports the first broken invariant with its numbers."""
@@ -462,6 +500,8 @@ def clauses(tier, seed):
       Clause('static+numeric:uniform tracer stays uniform', 'numeric', fns, run_uniform_tracer, replay=replay_invariants, group='jax-d', heavy=True),
       Clause('exact:closure of the invariants under one step of every integrator (abstract/exact runs of the real step functions)', 'exact',
              integ, run_step_closure, group='symx'),
+      Clause('numeric:moist global-mean vorticity / divergence tendencies vanish to rounding (sampled rough states, tendency and short trajectory)', 'numeric', fns, run_moist_means,
+             replay=rerun_replay(run_moist_means), group='jax-f', heavy=True),
       Clause('twin:trajectories keep the invariants [bounded]', 'numeric', fns + integ, run_trajectory_twin, replay=replay_invariants, group='jax-e', heavy=True),
   ] + _operator_clauses()
 
